@@ -43,6 +43,8 @@ type httpsSpec struct {
 	Chain    int    `json:"alias_chain_len,omitempty"`
 	Terminal string `json:"terminal,omitempty"` // for alias chains: none | service | dot | loop-origin | loop-first | loop-self | rcode
 	Svcs     []svc  `json:"services,omitempty"`
+	// WithAnswer (kind rcode): the failing response nevertheless carries an answer section (a CNAME and an HTTPS record for its target)
+	WithAnswer bool `json:"rcode_response_has_answer,omitempty"`
 }
 
 type universe struct {
@@ -137,9 +139,17 @@ func build(u universe) (*zone, expectation) {
 	}
 	// names whose addresses may matter
 	addrs := func(name string, a, aaaa bool, rcode int, viaCNAME bool) (ips []net.IP) {
-		if rcode != 0 {
+		if rcode != 0 && !viaCNAME {
 			z.data[zkey(name, 1)] = dohmem.Answer{RCode: rcode}
 			z.data[zkey(name, 28)] = dohmem.Answer{RCode: rcode}
+			return nil
+		}
+		if rcode != 0 {
+			// a failing response that still carries an answer section (CNAME and the addresses of its target, as a recursive
+			// resolver that failed half-way, or an NXDOMAIN for the CNAME's target, would send): the response code decides
+			pre := []dnsref.RR{{Name: name, Type: 5, Class: 1, TTL: 60, Fields: []dnsref.Field{dnsref.N("c.example")}}}
+			z.data[zkey(name, 1)] = dohmem.Answer{RCode: rcode, Records: append(pre, dnsref.RR{Name: "c.example", Type: 1, Class: 1, TTL: 60, Fields: []dnsref.Field{{Raw: ipC4}}})}
+			z.data[zkey(name, 28)] = dohmem.Answer{RCode: rcode, Records: append(pre[:1:1], dnsref.RR{Name: "c.example", Type: 28, Class: 1, TTL: 60, Fields: []dnsref.Field{{Raw: ipO6}}})}
 			return nil
 		}
 		owner := name
@@ -200,17 +210,30 @@ func build(u universe) (*zone, expectation) {
 	h := u.HTTPS
 	setSvc := func(owner string) {
 		var rrs []dnsref.RR
+		services = nil
 		for _, s := range h.Svcs {
+			// SELF: the target spells out the name the records were found at (instead of "."); ORIGIN: it spells out the host
+			// that was asked for (the same name unless an alias chain led elsewhere)
+			switch s.Target {
+			case "SELF":
+				s.Target = final
+			case "ORIGIN":
+				s.Target = f.Host
+			}
 			rrs = append(rrs, httpsRR(owner, s))
+			services = append(services, s)
 		}
 		z.data[zkey(owner, 65)] = dohmem.Answer{Records: rrs}
-		services = h.Svcs
 	}
 	rcodeErr := map[int]error{1: ech.ErrFormatError, 2: ech.ErrServerFailure, 3: ech.ErrNonExistentDomain, 4: ech.ErrNotImplemented, 5: ech.ErrQueryRefused}
 	switch h.Kind {
 	case "none":
 	case "rcode":
 		z.data[zkey(qname, 65)] = dohmem.Answer{RCode: h.RCode}
+		if h.WithAnswer {
+			z.data[zkey(qname, 65)] = dohmem.Answer{RCode: h.RCode, Records: []dnsref.RR{
+				{Name: qname, Type: 5, Class: 1, TTL: 60, Fields: []dnsref.Field{dnsref.N("cn.example")}}, httpsRR("cn.example", svc{1, "", 8443, true})}}
+		}
 		if h.RCode != 3 {
 			httpsErr = rcodeErr[h.RCode]
 			if httpsErr == nil {
@@ -287,6 +310,19 @@ func build(u universe) (*zone, expectation) {
 					r.Additional = map[string][]net.IP{}
 				}
 				r.Additional[s.Target] = t1ips
+			}
+			for _, own := range []struct {
+				name string
+				ips  []net.IP
+			}{{final, ips}, {f.Host, originIPs}} {
+				if s.Target == own.name && len(own.ips) > 0 {
+					if r.Additional == nil {
+						r.Additional = map[string][]net.IP{}
+					}
+					if _, done := r.Additional[s.Target]; !done {
+						r.Additional[s.Target] = own.ips
+					}
+				}
 			}
 			if s.Target == "t2.example" && len(t2ips) > 0 {
 				if r.Additional == nil {
@@ -502,7 +538,7 @@ func expectStr(e expectation) string {
 
 func Run(r *ev.Run) {
 	log.SetOutput(io.Discard) // the package logs alias loops through the standard logger
-	r.Rule("reference resolver model (RFC 9460 §2.3, §2.4.2, §3 + property text) + total replay: universes = HTTPS data {none, NXDOMAIN/SERVFAIL/REFUSED/FORMERR/NOTIMP, alias chains of length 1..6, 12 and 30 ending in {nothing, service set, alias '.', loop to origin/first/self, NXDOMAIN, SERVFAIL}, 14 service sets (1-2 records, priorities in both orders and equal, targets '.', t1, t2, port, ech)} x final-name addresses {A?,AAAA?} x address rcode {ok,NXDOMAIN,SERVFAIL} x in-answer CNAME x target addresses {none, A, A+AAAA (+second target A), SERVFAIL, first target SERVFAIL while the second has an address} x poisoned answers on/off (records of the asked type owned by an unrelated name, and an unrelated CNAME followed by data for its target, before and after the genuine records) x 12 name forms (host, host:port, URIs with http/https/other schemes, upper-case scheme, trailing dot); plus literal/localhost forms and hostile lengths (host 253..300 bytes, labels 63/64, schemes 1..300 bytes). Every query is served by an in-memory DoH responder and logged. distinct = distinct (universe, form)")
+	r.Rule("reference resolver model (RFC 9460 §2.3, §2.4.2, §3 + property text) + total replay: universes = HTTPS data {none, NXDOMAIN/SERVFAIL/REFUSED/FORMERR/NOTIMP, alias chains of length 1..6, 12 and 30 ending in {nothing, service set, alias '.', loop to origin/first/self, NXDOMAIN, SERVFAIL}, 17 service sets (1-2 records, priorities in both orders and equal, targets '.', t1, t2, the owner/origin name spelled out, port, ech), failing responses that nevertheless carry an answer section} x final-name addresses {A?,AAAA?} x address rcode {ok,NXDOMAIN,SERVFAIL} x in-answer CNAME x target addresses {none, A, A+AAAA (+second target A), SERVFAIL, first target SERVFAIL while the second has an address} x poisoned answers on/off (records of the asked type owned by an unrelated name, and an unrelated CNAME followed by data for its target, before and after the genuine records) x 12 name forms (host, host:port, URIs with http/https/other schemes, upper-case scheme, trailing dot); plus literal/localhost forms and hostile lengths (host 253..300 bytes, labels 63/64, schemes 1..300 bytes). Every query is served by an in-memory DoH responder and logged. distinct = distinct (universe, form)")
 	r.Assume("reference model in checks/c14; chains of up to 3 aliases must be followed, longer ones may be followed or abandoned (fallback to the origin's addresses or an error); alias loops must end in the fallback or an error; RRsets mixing alias and service mode are excluded (RFC 9460 leaves them to the client)",
 		"the DoH responder chases CNAMEs itself (recursive-resolver behaviour): answers carry the CNAME followed by the target's records")
 	var svcSets [][]svc
@@ -516,10 +552,15 @@ func Run(r *ev.Run) {
 	for _, p := range pairs {
 		svcSets = append(svcSets, []svc{p[0], p[1]})
 	}
+	// targets that spell out the name itself instead of "."
+	svcSets = append(svcSets, []svc{{1, "SELF", 8443, true}}, []svc{{1, "ORIGIN", 0, true}, {2, "t1.example", 0, false}}, []svc{{2, "SELF", 0, false}, {1, "t2.example", 0, true}})
 	var hs []httpsSpec
 	hs = append(hs, httpsSpec{Kind: "none"})
 	for _, rc := range []int{1, 2, 3, 4, 5, 9, 16, 19, 23} { // 16, 19, 23: extended codes (upper bits in the OPT record); 19 has low nibble 3
 		hs = append(hs, httpsSpec{Kind: "rcode", RCode: rc})
+	}
+	for _, rc := range []int{2, 3, 5} {
+		hs = append(hs, httpsSpec{Kind: "rcode", RCode: rc, WithAnswer: true})
 	}
 	for _, s := range svcSets {
 		hs = append(hs, httpsSpec{Kind: "service", Svcs: s})
@@ -557,9 +598,6 @@ func Run(r *ev.Run) {
 				if d[7] >= 4 && (d[1]*8+d[2]*4+d[3]+d[4]*2+d[5])%6 != (d[0]+d[7])%6 {
 					continue
 				}
-			}
-			if u.CNAME && u.AddrRCode != 0 {
-				continue
 			}
 			evalUniverse(r, u, srv, host)
 			executed.Add(1)
